@@ -27,8 +27,23 @@ pub struct LegacyTransaction {
     #[serde(with = "serialization::bytes")]
     pub data: Vec<u8>,
     /// Optional chain ID for the transaction.
-    #[serde(default, rename = "chainId", with = "serialization::numopt")]
+    #[serde(default, rename = "chainId", deserialize_with = "deserialize_chain_id")]
     pub chain_id: Option<U256>,
+}
+
+/// Deserializes an optional chain ID, rejecting values for which the EIP-155
+/// `v = chain_id * 2 + 35 + y_parity` does not fit in 256 bits.
+fn deserialize_chain_id<'de, D>(deserializer: D) -> Result<Option<U256>, D::Error>
+where
+    D: serde::Deserializer<'de>,
+{
+    let chain_id: Option<U256> = serialization::numopt::deserialize(deserializer)?;
+    match chain_id {
+        Some(id) if id > (U256::MAX - 36) / 2 => Err(serde::de::Error::custom(
+            "chain ID too large for EIP-155 replay protection",
+        )),
+        _ => Ok(chain_id),
+    }
 }
 
 impl LegacyTransaction {
